@@ -208,8 +208,10 @@ def lit_value(v):
         assert 'e' not in s and 'n' not in s
         return s
     if isinstance(v, str):
-        assert '"' not in v
-        return '"' + v + '"'
+        if '"' not in v:
+            return '"' + v + '"'
+        assert "'" not in v
+        return "'" + v + "'"
     raise ValueError(v)
 
 
@@ -533,6 +535,16 @@ def cases(rng, ctx):
         for sp in (',', ';', '\\'):
             for src in ('var', 'range'):
                 out.append({'kind': 'index', 'src': src, 'arr': arr, 'r': r, 'c': cc, 'asep': sp})
+    # ---- texts whose own first or last character is a quote character, and texts that begin with '#' (colour codes, ticket
+    #      numbers): they are the elements they are, written in the formula or handed over by the host
+    for arr in (["5'", "6'", "7'"], ["'80s", "'90s", "'00s"], ['say "hi"', 'bye', '"quoted"'], ['#FF0000', '#00FF00', '#0000FF'],
+                ['#1', '#42', '#N/A!', '#n/a'], ["it's", "'", "''a"]):
+        for i, x in enumerate(arr):
+            for src in ('var', 'lit'):
+                out.append({'kind': 'match', 'src': src, 'arr': arr, 'x': x, 't': 0})
+                out.append({'kind': 'im', 'src': src, 'arr': arr, 'x': x})
+                out.append({'kind': 'index', 'src': src, 'arr': arr, 'r': i + 1, 'c': 'omit', 'sep': ','})
+            out.append({'kind': 'choose', 'vals': arr, 'i': i + 1})
     # ---- whole numbers beyond 2^53 (ids): written in the formula or handed over by the host, they are themselves
     B = 2 ** 53
     ids = [B - 9, B - 8, B + 1, B + 3, 9999999999999999, 12345678901234567]
